@@ -603,10 +603,40 @@ def c08(obs):
     return v
 
 
+def tree_bytes(tree):
+    """exact bytes and the expected source() text of a tree of leaves / ConcatSource (None when other kinds are involved)"""
+    k = tree['kind']
+    if k in ('orig', 'raw', 'rawstr', 'rawbuf'):
+        b = bytes(tree['bytes']) if 'bytes' in tree else tree['text'].encode('utf-8')
+        return b, b.decode('utf-8', 'replace')
+    if k in ('concat', 'concat_add'):
+        bs, ts = b'', ''
+        for c in tree['children']:
+            r = tree_bytes(c)
+            if r is None: return None
+            bs += r[0]; ts += r[1]
+        return bs, ts
+    if k in ('boxed', 'cached'): return tree_bytes(tree['inner'])
+    return None
+
+
 def c07(obs):
     v = []
     src = obs.get('source'); vw = obs.get('views') or {}
     if src is None: return v
+    tb = tree_bytes(obs['tree']) if obs.get('tree') else None
+    if tb is not None and any(ord(ch) == 0xFFFD for ch in tb[1]) or (tb is not None and 'buffer_bytes' in vw and bytes(vw['buffer_bytes']) != tb[0]):
+        # binary leaves: buffer() is the exact bytes given, source() their lossy decoding
+        if src != tb[1]: v.append(('C07', 'source() is %r but the lossy decoding of the leaves is %r' % (src, tb[1])))
+        if 'buffer_bytes' in vw and bytes(vw['buffer_bytes']) != tb[0]: v.append(('C07', 'buffer() is %r but the leaves hold the bytes %r' % (bytes(vw['buffer_bytes']), tb[0])))
+        if 'size' in vw and vw['size'] != len(tb[0]): v.append(('C07', 'size() is %d but buffer() has %d bytes' % (vw['size'], len(tb[0]))))
+        if 'writer_bytes' in vw and bytes(vw['writer_bytes']) != tb[0]: v.append(('C07', 'to_writer() wrote %r but buffer() is %r' % (bytes(vw['writer_bytes']), tb[0])))
+        if 'rope' in vw and vw['rope'] != src: v.append(('C07', 'rope() renders to %r but source() is %r' % (vw['rope'], src)))
+        wf = vw.get('writerfail')
+        if wf is not None and 'written_bytes' in wf:
+            if wf['k'] >= len(tb[0]) and (wf['err'] or bytes(wf['written_bytes']) != tb[0]): v.append(('C07', 'a writer accepting %d bytes: error=%r wrote %r' % (wf['k'], wf['err'], bytes(wf['written_bytes']))))
+            if wf['k'] < len(tb[0]) and (not wf['err'] or not tb[0].startswith(bytes(wf['written_bytes']))): v.append(('C07', 'a writer failing after %d bytes: error=%r wrote %r, buffer() is %r' % (wf['k'], wf['err'], bytes(wf['written_bytes']), tb[0])))
+        return v
     if 'rope' in vw and vw['rope'] != src: v.append(('C07', 'rope() renders to %r but source() is %r' % (vw['rope'], src)))
     if 'buffer' in vw and vw['buffer'] != src: v.append(('C07', 'buffer() is %r but source() is %r' % (vw['buffer'], src)))
     if 'size' in vw and vw['size'] != len(src.encode('utf-8')): v.append(('C07', 'size() is %d but buffer() has %d bytes' % (vw['size'], len(src.encode('utf-8')))))
